@@ -399,6 +399,10 @@ def run_history(mod, h, sm, skips=None, record_skips=None):
             sm.CURRENT[0] = None
             del obj
             gc.collect()
+            # delegates kept alive a little longer (CPython: frames referenced by the traceback of an unraisable
+            # 'ignored GeneratorExit' error) are finalised by further collections; their events belong to this run
+            gc.collect()
+            gc.collect()
             trace.append(("final-del", list(sm.LOG[mark:])))
     finally:
         sm.CURRENT[0] = None
@@ -451,10 +455,42 @@ def lifetime_normalised(trace):
     return [t, sorted(fin)]
 
 
+def _starts(trace):
+    """multiset of delegate starts per finalizer event: 'aw.start' tag -> 'aw.finally' tag, 'pygen.start' -> 'pygen.finally'"""
+    out = {}
+
+    def walk(x):
+        if isinstance(x, list):
+            if len(x) >= 2 and x[0] in ("aw.start", "pygen.start"):
+                k = json.dumps([x[0].replace(".start", ".finally")] + list(x[1:]))
+                out[k] = out.get(k, 0) + 1
+                return
+            for y in x:
+                walk(y)
+    walk(trace)
+    return out
+
+
 def first_diff(a, b):
+    """a = model trace, b = trace of the compiled object"""
     d = _first_diff(a, b)
-    if d is not None and lifetime_normalised(a) == lifetime_normalised(b):
+    if d is None:
+        return None
+    na, nb = lifetime_normalised(a), lifetime_normalised(b)
+    if na == nb:
         return ("lifetime-only",)
+    if na[0] == nb[0]:
+        # Only the finalisation of delegates differs.  CPython may keep a started delegate alive beyond the end of the run
+        # (frames referenced by the traceback of an unraisable error), so the model can show FEWER finalisations; the compiled
+        # object must show at least those, and never more than one per started delegate (exactly-once).
+        ca, cb = {}, {}
+        for k in na[1]:
+            ca[k] = ca.get(k, 0) + 1
+        for k in nb[1]:
+            cb[k] = cb.get(k, 0) + 1
+        starts = _starts(b)
+        if all(cb.get(k, 0) >= n for k, n in ca.items()) and all(n <= starts.get(k, 0) for k, n in cb.items()):
+            return ("lifetime-only",)
     return d
 
 
